@@ -247,6 +247,11 @@ def run(ck, F, prefix='C08'):
         ck.extra.setdefault('fixup_states', 0)
         ck.extra['fixup_states'] += nstates
     descent_rules(ck, F, S, intrusive, owning, prefix)
+    if prefix == 'C08':
+        # the intrusive tree of an overload set is searched with one comparator and filled with another overload of it: the two must
+        # be the same total order, or a key that was inserted is not found (KEY obligations of the scope tables, shared with C07)
+        import c07 as _c07
+        _c07.scope_keys(ck, F, 'C08')
     # the element a new tree node holds is built from the key by direct-initialisation `T(key)`: with list-initialisation `T{key}`
     # an element type that has an initializer-list constructor is built from the one-element list instead (std::vector<size_t>{n}
     # holds n, not n zeros) -- the node is linked where the key belongs but does not compare equal to it
